@@ -52,8 +52,8 @@ RULE = ('E1: breadth-first search over histories of assignments '
         'next to the assignments (there: one value per property).  '
         'States are merged on (model, registration model, generic object '
         'graph of both transforms); quick: depth 3 (rereg: 4); thorough: '
-        'depth 4, and to fixpoint for the duplicate/shared layout (closes '
-        'at depth 6) and the rereg layout (depth 13).  E3 '
+        'to the fixpoint of every layout (assignment layouts close at '
+        'depth 6, the rereg layout at depth 13).  E3 '
         '"listener-subsets": every ordered pair of subsets (empty = not '
         'registered) for two listeners on one transform x every single '
         'assignment, a second transform with a listener for all events '
@@ -1190,7 +1190,9 @@ def drivers(tier):
                 # fewest listeners = cheapest canonical key: to fixpoint
                 kw = dict(max_states=400000, time_budget=600)
             else:
-                kw = dict(max_depth=4)
+                # the merged state space closes (depth 6: one assignment per
+                # property and transform)
+                kw = dict(max_states=400000, time_budget=600)
             d[drv.name] = (drv, kw)
     return d
 
@@ -1252,10 +1254,9 @@ def run(tier, rep):
         'finally stored equals the corrected one (only: equals the last '
         'notification).  One correcting listener per transform, one '
         'correction per outer assignment.',
-        'quick: histories up to depth 3; thorough: depth 4 for the two '
-        'subset layouts and class-shapes (depth caps reported, so '
-        '`exhaustive` is false) and the fixpoint of the merged state space '
-        'for the dup-shared and rereg layouts (quick: rereg to depth 4)',
+        'quick: histories up to depth 3 (rereg: 4; depth caps reported, so '
+        '`exhaustive` is false); thorough: the fixpoint of the merged state '
+        'space of every layout',
     ]
     rep.require_hits(rotation_out_of_range=1, negative_rotation=1,
                      other_instance_listener=1, other_event_listener=1,
